@@ -1,6 +1,6 @@
 SPECIFICATION Spec
 CONSTANTS
-  MaxStmts = 3
+  MaxStmts = 2
   MaxDepth = 2
   MaxUnits = 1
   MaxVar = 30
